@@ -81,6 +81,19 @@ func ResolveFunc(p *ssa.Package, key string) *ssa.Function {
 		}
 		return p.Prog.MethodValue(sel)
 	}
+	if i := strings.Index(key, "$"); i > 0 {
+		// anonymous function: parent$N
+		parent := p.Func(key[:i])
+		if parent == nil {
+			return nil
+		}
+		for _, a := range parent.AnonFuncs {
+			if a.Name() == key {
+				return a
+			}
+		}
+		return nil
+	}
 	return p.Func(key)
 }
 
@@ -88,18 +101,18 @@ func ResolveFunc(p *ssa.Package, key string) *ssa.Function {
 // Running a property check.
 
 type ObligResult struct {
-	Name     string
-	Fn       string
-	Goals    int
-	Status   string // discharged | failed | undecided | known-finding
-	Solver   map[string]int
-	Seconds  float64
-	Fail     *Goal
-	FailRes  *SolveResult
-	Trivial  int
-	Kind     string // proof | cover
-	Bounded  string
-	Finding  *KnownFinding
+	Name    string
+	Fn      string
+	Goals   int
+	Status  string // discharged | failed | undecided | known-finding
+	Solver  map[string]int
+	Seconds float64
+	Fail    *Goal
+	FailRes *SolveResult
+	Trivial int
+	Kind    string // proof | cover
+	Bounded string
+	Finding *KnownFinding
 }
 
 type KnownFinding struct {
@@ -112,22 +125,22 @@ type KnownFinding struct {
 }
 
 type Report struct {
-	Property   string
-	Tier       string
-	Seed       int
-	Funcs      []string
-	Obligs     []*ObligResult
-	Broken     []string
-	Notes      []string
-	Trusted    []string
-	Wall       float64
-	SolverStat map[string]int
-	SolverTime map[string]float64
-	Queries    int
-	Extra      map[string]interface{}
-	Bounded    []map[string]interface{}
+	Property    string
+	Tier        string
+	Seed        int
+	Funcs       []string
+	Obligs      []*ObligResult
+	Broken      []string
+	Notes       []string
+	Trusted     []string
+	Wall        float64
+	SolverStat  map[string]int
+	SolverTime  map[string]float64
+	Queries     int
+	Extra       map[string]interface{}
+	Bounded     []map[string]interface{}
 	Assumptions []string
-	Undecided  []string
+	Undecided   []string
 }
 
 type FuncTarget struct {
